@@ -221,7 +221,7 @@ class InventoryConverter:
         # isn't present. This should be fixed to distinguish between the two.
         number = inv.get_currency_units(self.currency).number
         if number and dformat:
-            number = dformat.quantize(number, self.currency)
+            return dformat.quantize(number, self.currency)
         return number or None
 
 
